@@ -171,12 +171,21 @@ def lsp_ranges(ctx):
         if not ss: continue
         for (fk, code, ds) in rng.sample(ss, min(len(ss), 4)):
             lines = units.print_file(ds, rng).split('\n')
+            plain = '\n'.join(lines)
             for k in range(len(lines)):
                 # a non-ASCII comment before the tokens of about every second line: bytes, characters and UTF-16 units differ there
                 if lines[k].strip() and rng.random() < 0.5:
                     lines[k] = f'(* {rng.choice(["é", "üß", "日本", "€", "é é", "😀"])} *) ' + lines[k]
-            docs.append((fk, '\n'.join(lines)))
-    hist = [[('open', 'f0', 1, t)] for fk, t in docs]
+            docs.append((fk, '\n'.join(lines), plain))
+    # half of the documents reach their text through an edit that changes layout and comments only (the same tokens at
+    # other offsets: positions must be those of the current text), some of them after a further detour
+    hist = []
+    for fk, t, plain in docs:
+        r = rng.random()
+        if r < 0.5: hist.append([('open', 'f0', 1, t)])
+        elif r < 0.8: hist.append([('open', 'f0', 1, plain), ('change', 'f0', 2, [t])])
+        else: hist.append([('open', 'f0', 1, '\n\n(* header *)\n' + plain), ('change', 'f0', 2, [plain]), ('change', 'f0', 3, [t])])
+    docs = [(fk, t) for fk, t, plain in docs]
     sess = lspclient.sessions(hist, jobs=8)
     ana = core.run_lines(core.VH, ['project ' + core.hexs(t) for fk, t in docs], jobs=8)
     for (fk, t), s, o in zip(docs, sess, ana):
@@ -223,17 +232,19 @@ def cli_labels(ctx):
         for (fk, code, ds) in rng.sample(ss, min(len(ss), 3)):
             files = units.split_files(rng, ds, rng.choice([2, 3]))
             texts = [units.print_file(f, rng) for f in files]
-            if all(texts): sets.append((fk, texts))
-    ana = core.run_lines(core.VH, ['project ' + ' '.join(core.hexs(t) for t in texts) for fk, texts in sets], jobs=8)
+            # some files are stored with a UTF-8 byte order mark: positions are those of the text without it
+            if all(texts): sets.append((fk, texts, [rng.random() < 0.35 for _ in texts]))
+    ana = core.run_lines(core.VH, ['project ' + ' '.join(core.hexs(t) for t in texts) for fk, texts, boms in sets], jobs=8)
     import concurrent.futures as cf
     def do(x):
-        fk, texts = x
-        return cli.check_files({f'f{i}.st': t for i, t in enumerate(texts)}, order=[f'f{i}.st' for i in range(len(texts))])
+        fk, texts, boms = x
+        return cli.check_files({f'f{i}.st': (b'\xef\xbb\xbf' if boms[i] else b'') + t.encode('utf-8') for i, t in enumerate(texts)}, order=[f'f{i}.st' for i in range(len(texts))])
     with cf.ThreadPoolExecutor(8) as ex:
         res = list(ex.map(do, sets))
-    for (fk, texts), o, r in zip(sets, ana, res):
+    for (fk, texts, boms), o, r in zip(sets, ana, res):
         ctx.evaluations += 1
         ctx.count('cli-labels:sets')
+        if any(boms): ctx.count('cli-labels:sets-with-bom-file')
         if not o.startswith('ERR'): continue
         expected = {}     # code -> list of (file name, line(1-based), {cols (1-based)})
         for d in o.split(' ')[1:]:
@@ -245,7 +256,7 @@ def cli_labels(ctx):
                 raw = texts[int(m.group(1))].encode('utf-8')
                 line, cols = lexcheck.line_col_candidates(raw, int(m.group(2)))
                 expected.setdefault(code, []).append((f'f{m.group(1)}.st', line + 1, {c + 1 for c in cols}))
-        show = {'fault': fk, 'texts': texts}
+        show = {'fault': fk, 'texts': texts, 'stored_with_utf8_bom': boms}
         bad = None
         for (code, f, line, col) in r['labels']:
             if f is None or code not in expected: continue
